@@ -344,6 +344,16 @@ def x5_ref_patterns(text, log):
 def x7_shims(text, log):
     """closed list of call shims (bodies of the shims are the original expression)"""
     n = 0
+    def btenum(m):
+        log.add("X7:vx_btree_iter_enumerate")
+        return "vx_btree_iter_enumerate(&%s)" % m.group(1)
+    text = re.sub(r"\b(self\.properties)\.iter\(\)\.enumerate\(\)", btenum, text)
+
+    def btiter(m):
+        log.add("X7:vx_btree_iter")
+        return "vx_btree_iter(&%s)" % m.group(1)
+    text = re.sub(r"\b(self\.properties)\.iter\(\)", btiter, text)
+
     # String + &String
     def concat(m):
         log.add("X7:vx_concat")
@@ -429,7 +439,7 @@ def x6_for_ghost_iter(text, log):
     def f(m):
         log.add("X9:for-ghost-iterator-name")
         return "%sfor %s in it: %s" % (m.group(1), m.group(2), m.group(3))
-    return re.sub(r"(^|\n)(\s*)for ([a-z_][a-z0-9_]*|\([a-z_, ]*\)) in ([a-z_0-9][a-z0-9_.()]*) (?=\{)", lambda m: "%s%sfor %s in it: %s " % (m.group(1), m.group(2), m.group(3), m.group(4)) if not log.add("X9:for-ghost-iterator-name") else "", text)
+    return re.sub(r"(^|\n)(\s*)for ([a-z_][a-z0-9_]*|\([a-z_, ]*\)) in ([a-z_0-9][a-z0-9_.()&]*) (?=\{)", lambda m: "%s%sfor %s in it: %s " % (m.group(1), m.group(2), m.group(3), m.group(4)) if not log.add("X9:for-ghost-iterator-name") else "", text)
 
 
 def x5b_ref_enum_pattern(text, log):
@@ -451,6 +461,7 @@ def x3b_by_value_writer(text, log):
     t2 = re.sub(r"<\s*W\s*:\s*Write\s*>", "", text)
     t2 = re.sub(r"\bmut writer\s*:\s*W\b", "writer: &mut VSink", t2)
     t2 = t2.replace("&mut writer", "&mut *writer").replace("writer.by_ref()", "&mut *writer")
+    t2 = re.sub(r"writer\.write_all\(&self\.(clsid|fmtid)\)", r"writer.write_all16(&self.\1)", t2)
     t2 = re.sub(r"::<LittleEndian>", "", t2)
     if t2 != text:
         log.add("X3b:by-value-writer-as-&mut-VSink")
@@ -513,7 +524,16 @@ def x5e_arm_ref_pattern(text, log):
     return re.sub(r"(\n\s*)&([A-Z][A-Za-z0-9_]*::[A-Z][A-Za-z0-9_]*\([^)]*\)\s*=>)", f, text)
 
 
+def x5f_for_enum_kv(text, log):
+    """`for (index, (&name, _)) in e {` -> `for (index, vx_kv) in e { let name = *vx_kv.0;`"""
+    def f(m):
+        log.add("X5:for-(index,(&k,_))")
+        return "for (%s, vx_kv) in %s {\n            let %s = *vx_kv.0;" % (m.group(1), m.group(3), m.group(2))
+    return re.sub(r"for \(([a-z_][a-z0-9_]*), \(&([a-z_][a-z0-9_]*), _\)\) in ([^{]+?)\s*\{", f, text)
+
+
 OPTS = {
+    "x5f": x5f_for_enum_kv,
     "x5e": x5e_arm_ref_pattern,
     "x3r": x3r_by_value_reader,
     "x5d": x5d_for_copy_tuple,
